@@ -16,6 +16,8 @@ RULE = ("cases: `crc` = CRC model vs crc32fast through seglog::calculate_crc32c 
         "decided by model and implementation (records up to 48 (thorough 200) data bytes for bits/trunc, 14 (56) for bursts, plus compressed 128..300); "
         "`cor .. bitsx|burstx|truncx` = the same exhaustive enumeration on the implementation alone (monitor only) for records up to 2049 (thorough: 201..1024 dense, ..4200); "
         "`cor .. fbits|ftrunc` = flips / cuts applied to the FILE and read through fresh Readers (both hints), Iter and Writer::open; "
+        "`seq` = 40 (thorough 240) sequences of 2..7 records through ONE writer (sizes <64, 100..500, 16 KiB+-40, 16 KiB..21 KiB, 64 KiB+-40, 20000..80000; a record larger than the "
+        "16 KiB write buffer first in every other sequence), one sync, every record read back by Random/Sequential reads, parse_record and Iter, writer reopened (implementation alone, monitor decides); "
         "`raw` = arbitrary bytes, arbitrary length words around H, arbitrary offsets (incl. usize::MAX) to parse_record. "
         "non-trivial = every case except `skip`; distinct = distinct case strings. Stated limit: flips in the low 31 bits of the length word and bursts that "
         "straddle the crc field are detected with probability 1-2^-32 per case (a CRC-32 collision would be reported as a violation); "
@@ -33,6 +35,7 @@ def toks(c): return c.split()
 def model_case(c):
     t = toks(c)
     if t[0] == "cor" and len(t) > 8 and t[8] in IMPL_ONLY: return "skip"
+    if t[0] == "seq": return "skip"
     return c
 
 def agree(c, o, e):
@@ -105,6 +108,19 @@ def monitor(c, o):
                 elif rest != str(start):
                     return ("resume", f"fbits: Writer::open resumed at {rest} over a corrupted record, expected {start} ({c[:100]})")
             return None
+    if kind == "seq":
+        H, comp, start, specs = int(t[1]), t[2] == "1", int(t[3]), t[4:]
+        f = dict(x.split("=", 1) for x in o.split("|"))
+        lens = [spec_len(x) for x in specs]
+        if f["bad"] != "-":
+            return ("roundtrip-sequence", f"{len(specs)} records appended back to back (H={H}, data sizes {lens}, start {start}): {f['bad']} is not returned byte-identical at its offset")
+        if f["n"] != str(len(specs)) or f["iter"] != f["n"]:
+            return ("roundtrip-sequence", f"{len(specs)} records appended (sizes {lens}): {f['n']} accepted, iteration returned {f['iter']}")
+        if f["sync"] != f["end"] or f["open"] != f["end"]:
+            return ("resume", f"{len(specs)} records (sizes {lens}) end at {f['end']}: sync returned {f['sync']}, a reopened writer resumes at {f['open']}")
+        if not comp and int(f["end"]) != start + sum(8 + H + n for n in lens):
+            return ("roundtrip-sequence", f"{len(specs)} uncompressed records (sizes {lens}) from {start} end at {f['end']}, expected {start + sum(8 + H + n for n in lens)}")
+        return None
     if kind == "raw":
         if o.startswith("ok:"):
             H, off, b = int(t[1]), int(t[2]), expand(t[3])
